@@ -1,9 +1,24 @@
-import RoaringModel.Ser
-/-! # C05 (placeholder, replaced below) -/
+import RoaringModel.Lemmas.CodecWF
+import RoaringModel.Lemmas.Parser
+/-!
+# C05 — serialization is exact, deterministic and format-conformant (32-bit half)
+-/
 namespace Roaring.C05
-open Roaring
+open Roaring Roaring.Parser
 
-theorem C05_readN_zero (bs : List Nat) : readN 0 bs = .ok ([], bs) := by
-  simp [readN]
+/-- `serialize_into` writes exactly `serialized_size()` bytes. -/
+theorem C05_size (b : Bitmap) (h : BitmapWF b) : (Bitmap.serialize b).length = Bitmap.serializedSize b := by
+  unfold Bitmap.serialize
+  simp only [List.length_append, u32le_length, descrBytes_length, offsetBytes_length,
+    payloadBytes_length b (fun c hc => (h.2 c hc).2), serializedSize_eq]
+  omega
+
+/-- a two-chunk value with one array chunk and one chunk key at the top of the key space meets `BitmapWF` -/
+example : BitmapWF [{ key := 0, store := .array [1, 5, 65535] }, { key := 65535, store := .array [0] }] := by
+  refine ⟨by decide, ?_⟩
+  intro c hc
+  simp only [List.mem_cons, List.not_mem_nil, or_false] at hc
+  rcases hc with rfl | rfl <;> refine ⟨by decide, by decide, ?_, by decide, by decide⟩ <;>
+    (intro x hx; simp only [List.mem_cons, List.not_mem_nil, or_false] at hx; omega)
 
 end Roaring.C05
